@@ -270,20 +270,30 @@ def dists_of_digest(t, dg, d=2):
 
 
 # ============================================================================= flow configurations
+def pick(draw, options):
+    """choice through an integer modulus: with a handful of examples st.sampled_from sticks to its first entries."""
+    return options[draw(st.integers(0, 100 * len(options) - 1)) % len(options)]
+
+
 @st.composite
-def noise_st(draw, for_flow=True):
-    kind = draw(st.sampled_from(["depolarized", "depolarized", "random_effective_lindbladian", "random_effective_lindbladian", "none"]))
+def noise_st(draw, rich=False):
+    """rich: for the expensive differential facet, where most configurations should carry random / non-trivial noise."""
+    if rich:
+        kind = pick(draw, ["random_effective_lindbladian", "depolarized", "random_effective_lindbladian", "depolarized",
+                           "random_effective_lindbladian", "none", "random_effective_lindbladian"])
+    else:
+        kind = pick(draw, ["depolarized", "depolarized", "random_effective_lindbladian", "random_effective_lindbladian", "none"])
     if kind == "none":
         return {"method": None}
     if kind == "depolarized":
-        p_true = draw(st.one_of(st.sampled_from([0.0, 1.0, 0.5]), st.floats(0.0, 1.0, allow_nan=False)))
-        p_tester = draw(st.one_of(st.sampled_from([0.0, 0.5]), st.floats(0.0, 0.5, allow_nan=False)))
+        p_true = draw(st.one_of(st.integers(1, 999).map(lambda i: i / 1000.0), st.sampled_from([0.0, 1.0]), st.floats(0.0, 1.0, allow_nan=False)))
+        p_tester = draw(st.one_of(st.integers(0, 500).map(lambda i: i / 1000.0), st.floats(0.0, 0.5, allow_nan=False)))
         return {"method": "depolarized", "p_true": float(p_true), "p_tester": float(p_tester),
-                "tester_plain": draw(st.sampled_from([False, False, True]))}
-    h = draw(st.one_of(st.just(0.0), gen.log_uniform(1e-3, 1.0)))
-    k = draw(st.one_of(st.just(0.0), gen.log_uniform(1e-3, 0.5)))
+                "tester_plain": pick(draw, [False, False, True])}
+    h = draw(st.one_of(gen.log_uniform(1e-3, 1.0), gen.log_uniform(1e-3, 1.0), st.just(0.0)))
+    k = draw(st.one_of(gen.log_uniform(1e-3, 0.5), gen.log_uniform(1e-3, 0.5), st.just(0.0)))
     return {"method": "random_effective_lindbladian", "h": float(h), "k": float(k),
-            "lindbladian_base": draw(st.sampled_from(["identity", "identity"] + LINDBLADIAN_BASES_1Q))}
+            "lindbladian_base": pick(draw, ["identity", "identity"] + LINDBLADIAN_BASES_1Q)}
 
 
 @st.composite
@@ -310,27 +320,27 @@ def num_data_st(draw, max_len=3, lo=1, hi=400):
 
 
 @st.composite
-def flow_cfg(draw, tier, types=("state", "povm", "gate", "mprocess"), n_rep=(2, 4), est_n=None, nd=None):
-    t = draw(st.sampled_from(list(types)))
+def flow_cfg(draw, tier, types=("state", "povm", "gate", "mprocess"), n_rep=(2, 4), est_n=None, nd=None, rich=False):
+    t = pick(draw, list(types))
     cfg = {
         "type": t,
-        "true_name": draw(st.sampled_from(NAMES_1Q[t])),
-        "tester_4th": draw(st.sampled_from(["z1", "x1", "y1", "a"])),
-        "noise": draw(noise_st()),
-        "n_sample": draw(st.integers(1, 2)),
-        "n_rep": draw(st.integers(*n_rep)),
+        "true_name": pick(draw, NAMES_1Q[t]),
+        "tester_4th": pick(draw, ["z1", "x1", "y1", "a"]),
+        "noise": draw(noise_st(rich)),
+        "n_sample": pick(draw, [2, 2, 2, 1]) if rich else draw(st.integers(1, 2)),
+        "n_rep": pick(draw, list(range(n_rep[0], n_rep[1] + 1))),
         "num_data": draw(num_data_st()) if nd is None else draw(nd),
         "seed_data": draw(st.integers(0, 2 ** 32 - 1)),
         "seed_qoperation": draw(st.integers(0, 2 ** 32 - 1)),
         "est_cases": draw(est_cases_st(n=est_n)),
-        "exec_check": draw(st.sampled_from(["all", "phys_only", "phys_only", "none"])),
+        "exec_check": pick(draw, ["all", "phys_only", "none", "phys_only"]),
     }
     return cfg
 
 
 @st.composite
 def flow_case(draw, tier):
-    cfg = draw(flow_cfg(tier))
+    cfg = draw(flow_cfg(tier, rich=True))
     return {"cfg": cfg, "hashseed": draw(st.integers(0, 4294967295))}
 
 
@@ -412,14 +422,17 @@ def check_flow_objects(ctx, cfg, dg):
         ctx.check(not np.array_equal(a["true"], b["true"]), "samples_distinct_true", "two samples drew the same random true object")
 
 
-def run_child(case, ctx):
-    """the eleven-run differential in a fresh interpreter; returns the child's report."""
+def run_child(case, ctx, d0):
+    """the ten-run differential in a fresh interpreter (stops after the first run that differs from d0); its report."""
     from harness.runner import REPO, HarnessError
 
-    job = {"cfg": case["cfg"], "repo": REPO, "modes": F.mode_list()}
     with F.scratch_dir() as d:
         cfg_path = os.path.join(d, "job.json")
         out_path = os.path.join(d, "out.pickle")
+        ref_path = os.path.join(d, "reference.pickle")
+        with open(ref_path, "wb") as f:
+            pickle.dump(d0, f)
+        job = {"cfg": case["cfg"], "repo": REPO, "modes": F.mode_list(), "reference": ref_path}
         with open(cfg_path, "w") as f:
             json.dump(job, f)
         env = dict(os.environ)
@@ -463,11 +476,9 @@ def minimize_flow(case, fails):
 
     attempt(lambda g: g.update(n_sample=1))
     attempt(lambda g: g.update(exec_check="none"))
-    for i in range(len(best["cfg"]["est_cases"])):
-        attempt(lambda g, i=i: g.update(est_cases=[g["est_cases"][i]]) if i < len(g["est_cases"]) else None)
+    attempt(lambda g: g.update(est_cases=g["est_cases"][:1]))
     attempt(lambda g: g.update(num_data=g["num_data"][:1]))
     attempt(lambda g: g.update(n_rep=2))
-    attempt(lambda g: g.update(noise={"method": None}))
     return best
 
 
@@ -482,10 +493,10 @@ def check_flow(case, ctx):
     if is_zero_example(case):
         ctx.skip("zero-example-child-not-run")
         return
-    rep = run_child(case, ctx)
+    rep = run_child(case, ctx, d0)
     if rep is None:
         return
-    ctx.check(len(rep["runs"]) == len(F.mode_list()), "child_runs", f"{len(rep['runs'])} runs")
+    ctx.check(len(rep["runs"]) == len(F.mode_list()) or rep["stopped_early"], "child_runs", f"{len(rep['runs'])} runs")
     seen_serial = 0
     for name, dg in rep["runs"]:
         if name == "serial":
@@ -501,16 +512,16 @@ def check_flow(case, ctx):
 # ============================================================================= single-setting entry point
 @st.composite
 def single_case(draw, tier):
-    tc = draw(tomo.tomo_case(kinds=("qst", "qst", "povmt", "qpt", "qmpt"), shapes=("1q",), m_range=(2, 3)))
+    tc = draw(tomo.tomo_case(kinds=(pick(draw, ["qst", "povmt", "qpt", "qmpt", "qst"]),), shapes=("1q",), m_range=(2, 3)))
     incs_n = draw(st.integers(3, 6))
     incs = draw(st.lists(st.integers(150, 400), min_size=incs_n, max_size=incs_n))
     return {
         "tomo": tc,
-        "estimator": draw(st.sampled_from(["linear", "linear", "plinear"])),
-        "n_rep": draw(st.integers(2, 5)),
+        "estimator": pick(draw, ["linear", "plinear", "linear"]),
+        "n_rep": pick(draw, [2, 3, 4, 5]),
         "num_data": [int(x) for x in np.cumsum(incs)],
         "seed": draw(st.integers(0, 2 ** 32 - 1)),
-        "seed_mode": draw(st.sampled_from(["setting_int", "arg_int", "generator_mt", "generator_pcg"])),
+        "seed_mode": pick(draw, ["setting_int", "generator_mt", "arg_int", "generator_pcg", "generator_mt"]),
         "init_with_seed": draw(st.booleans()),
     }
 
@@ -636,6 +647,7 @@ def check_indep(case, ctx):
 @st.composite
 def reest_case(draw, tier):
     cfg = draw(flow_cfg(tier, n_rep=(1, 3)))
+    cfg["n_rep"] = pick(draw, [2, 3, 1, 2])
     return {"cfg": cfg, "pick_rep": draw(st.integers(0, 2))}
 
 
@@ -715,11 +727,14 @@ def base_st(draw, shapes_generated=("1q", "1q", "qutrit", "2q")):
 
 @st.composite
 def noise_model_case(draw, tier):
-    model = draw(st.sampled_from(["depolarized", "depolarized", "lindbladian"]))
+    model = pick(draw, ["depolarized", "lindbladian", "depolarized"])
     if model == "depolarized":
         base = draw(base_st())
-        p = draw(st.one_of(st.sampled_from([0.0, 1.0]), st.floats(0.0, 1.0, allow_nan=False), gen.log_uniform(1e-15, 1e-3),
-                           gen.log_uniform(1e-15, 1e-3).map(lambda e: 1.0 - e)))
+        cls = pick(draw, ["inner", "grid", "one", "zero", "tiny", "near1", "inner"])
+        p = {"inner": st.floats(0.0, 1.0, allow_nan=False), "grid": st.integers(1, 99).map(lambda i: i / 100.0),
+             "one": st.just(1.0), "zero": st.just(0.0), "tiny": gen.log_uniform(1e-15, 1e-3),
+             "near1": gen.log_uniform(1e-15, 1e-3).map(lambda e: 1.0 - e)}[cls]
+        p = draw(p)
         bad = draw(st.one_of(st.sampled_from([-1.0, 2.0, -1e-12, 1.0 + 1e-12, 1e9, -1e9]),
                              st.floats(1.0, 10.0, exclude_min=True, allow_nan=False),
                              st.floats(-10.0, 0.0, exclude_max=True, allow_nan=False)))
@@ -728,8 +743,9 @@ def noise_model_case(draw, tier):
     lb = "identity"
     if base["shape"] == "1q":
         lb = draw(st.sampled_from(["identity"] + LINDBLADIAN_BASES_1Q))
-    h = draw(st.one_of(st.just(0.0), gen.log_uniform(1e-4, 1.0)))
-    k = draw(st.one_of(st.just(0.0), gen.log_uniform(1e-4, 1.0)))
+    zh, zk = pick(draw, [(False, False), (False, True), (False, False), (True, False), (False, False), (True, True)])
+    h = 0.0 if zh else draw(gen.log_uniform(1e-4, 1.0))
+    k = 0.0 if zk else draw(gen.log_uniform(1e-4, 1.0))
     return {"model": model, "base": base, "lindbladian_base": lb, "h": float(h), "k": float(k),
             "seed": draw(st.integers(0, 2 ** 32 - 1)), "bitgen": draw(st.sampled_from(["MT19937", "PCG64"])),
             "as_object": draw(st.booleans()), "bad_strength": float(draw(st.sampled_from([-1.0, -1e-9, -1e3])))}
@@ -1048,42 +1064,42 @@ FACETS = {
         "strategy": flow_case,
         "check": check_flow,
         "minimize": minimize_flow,
-        "budget": {"quick": {"examples": 24, "shards": 8}, "thorough": {"examples": 320, "shards": 16}},
+        "budget": {"quick": {"examples": 32, "shards": 8}, "thorough": {"examples": 320, "shards": 16}},
         "nontrivial": "every case: eleven runs (in-process, fresh interpreter x2, 4 levels x {2,4} real loky workers) compared",
         "min_nontrivial": 6,
     },
     "single_setting_entry": {
         "strategy": single_case,
         "check": check_single,
-        "budget": {"quick": {"examples": 240, "shards": 4}, "thorough": {"examples": 6000, "shards": 16}},
+        "budget": {"quick": {"examples": 600, "shards": 4}, "thorough": {"examples": 8000, "shards": 16}},
         "nontrivial": "n_rep >= 2 and the collision bound makes 'repetitions differ' decidable (false alarm < 1e-13)",
         "min_nontrivial": 20,
     },
     "independent_repetitions": {
         "strategy": indep_case,
         "check": check_indep,
-        "budget": {"quick": {"examples": 60, "shards": 4}, "thorough": {"examples": 1500, "shards": 16}},
+        "budget": {"quick": {"examples": 120, "shards": 4}, "thorough": {"examples": 2000, "shards": 16}},
         "nontrivial": "pairwise distinctness decidable for at least one sample of the flow",
         "min_nontrivial": 10,
     },
     "re_estimate": {
         "strategy": reest_case,
         "check": check_reest,
-        "budget": {"quick": {"examples": 48, "shards": 8}, "thorough": {"examples": 800, "shards": 16}},
+        "budget": {"quick": {"examples": 96, "shards": 8}, "thorough": {"examples": 1200, "shards": 16}},
         "nontrivial": ">= 2 repetitions or >= 2 samples re-estimated",
         "min_nontrivial": 10,
     },
     "noise_models": {
         "strategy": noise_model_case,
         "check": check_noise,
-        "budget": {"quick": {"examples": 900, "shards": 4}, "thorough": {"examples": 20000, "shards": 16}},
+        "budget": {"quick": {"examples": 1600, "shards": 4}, "thorough": {"examples": 24000, "shards": 16}},
         "nontrivial": "depolarized: output moved by > 1e-6 or p == 0; lindbladian: positive strength",
         "min_nontrivial": 50,
     },
     "physicality_check_verdict": {
         "strategy": verdict_case,
         "check": check_verdict,
-        "budget": {"quick": {"examples": 1200, "shards": 4}, "thorough": {"examples": 30000, "shards": 16}},
+        "budget": {"quick": {"examples": 2400, "shards": 4}, "thorough": {"examples": 40000, "shards": 16}},
         "nontrivial": "some estimate violates a constraint by >= 10x its threshold and the verdict is decidable",
         "min_nontrivial": 50,
     },
